@@ -230,6 +230,16 @@ def arc_drawings():
     # ring: outer circle (2 arcs) + inner closed circle
     V = np.vstack([np.array([ang(0), ang(np.pi / 2), ang(np.pi), ang(3 * np.pi / 2)]), c + 0.5 * np.array([[1, 0], [0, 1], [-1, 0]])])
     out["ring_of_arcs"] = (V, [("Arc", [0, 1, 2]), ("Arc", [2, 3, 0]), ("ArcClosed", [4, 5, 6])], np.pi * (r * r - 0.25), 2 * np.pi * (r + 0.5), 1)
+    # circle as a long arc (280 degrees) and a short one; the middle control points are NOT at the middle of their
+    # arcs (10 % and 80 % of the span): a three-point arc is defined by any point between its ends
+    a0, a1 = 0.0, np.deg2rad(280.0)
+    V = np.array([ang(a0), ang(a0 + 0.1 * (a1 - a0)), ang(a1), ang(a1 + 0.8 * (2 * np.pi - a1))])
+    out["circle_long_and_short_arc_offcentre_midpoints"] = (V, [("Arc", [0, 1, 2]), ("Arc", [2, 3, 0])], np.pi * r * r, 2 * np.pi * r, 1)
+    # a D shape: a 200 degree arc with an off-centre control point closed by a chord
+    a1 = np.deg2rad(200.0)
+    V = np.array([ang(0.0), ang(0.85 * a1), ang(a1)])
+    seg = r * r / 2 * (a1 - np.sin(a1))
+    out["D_shape_long_arc_offcentre_midpoint"] = (V, [("Arc", [0, 1, 2]), ("Line", [2, 0])], seg, r * a1 + 2 * r * np.sin(a1 / 2), 1)
     return out
 
 
@@ -359,6 +369,100 @@ def _w_transform(task):
     return t
 
 
+def _w_edit_then_transform(task):
+    """reads -> vertices edited outside apply_transform -> apply_transform -> reads: everything must describe
+    the edited and transformed drawing (scaling law with both factors)."""
+    name, max_entities = task
+    t = harness.Tally()
+    loops = DRAWINGS[name]
+    want0 = expected(loops)
+    vs = list(itertools.islice(variants(loops, max_entities), 0, None, 53))[:4]
+    edits = {
+        "assign 3x": (3.0, lambda p: setattr(p, "vertices", np.asarray(p.vertices) * 3.0)),
+        "in place 0.5x": (0.5, lambda p: p.vertices.__imul__(0.5)),
+    }
+    for ents in vs:
+        for rs in ("discrete", "area", "everything"):
+            for en, (f, edit) in edits.items():
+                for mn in ("rot345", "scale2", "translation"):
+                    M = M2(mn)
+                    s_ = np.sqrt(abs(np.linalg.det(M[:2, :2]))) * f
+                    case = {"family": "edit_then_transform", "drawing": name, "entities": ents, "reads": rs, "edit": en, "matrix": mn}
+                    t.evaluations += 1
+                    t.nontrivial_count += 1
+                    try:
+                        p = build_path(loops, ents)
+                        for r in READSETS[rs]:
+                            getattr(p, r)
+                        edit(p)
+                        p.apply_transform(M.copy())
+                        got = read_regions(p)
+                    except Exception as e:
+                        t.violation(f"read, edit vertices, apply_transform, read raises {type(e).__name__}", case, {"exc": repr(e)[:300]})
+                        continue
+                    want = {"n_closed": want0["n_closed"], "body_count": want0["body_count"], "shells": sorted((a * s_ * s_, h, b * s_ * s_) for a, h, b in want0["shells"]), "area": want0["area"] * s_ * s_, "length": want0["length"] * s_}
+                    bad = regions_equal(got, want, 1e-9)
+                    if bad:
+                        t.violation(f"after reads, an edit of the vertices and apply_transform the {bad} is not that of the edited, transformed drawing [reads before: {rs}]", case, {"got": got, "want": want})
+    return t
+
+
+NOTCHED = {
+    # a drawing with one very short edge (0.0045 at unit size) next to long ones
+    "square_with_a_tiny_chamfer": [[(0, 0), (6, 0), (6, 4), (0.004, 4), (0, 3.998)]],
+}
+
+
+def _w_construction_scale(_):
+    """The same drawing constructed (default processing: vertex merging) at very different sizes must give the
+    same regions up to the scaling law: tolerances of the construction are relative to the drawing."""
+    from trimesh.path import Path2D
+    from trimesh.path.entities import Line
+
+    t = harness.Tally()
+    fam = dict(DRAWINGS)
+    fam.update(NOTCHED)
+    for name, loops in fam.items():
+        want0 = expected(loops)
+        V = np.array([p for lp in loops for p in lp], dtype=float)
+        ents = []
+        k = 0
+        for lp in loops:
+            idx = list(range(k, k + len(lp)))
+            ents.append(idx + [idx[0]])
+            k += len(lp)
+        for sc in (1.0, 1e-3, 1e-5, 1e3):
+            for shift in ((0.0, 0.0), (0.25, -0.125)):
+                case = {"family": "construction_scale", "drawing": name, "scale": sc, "shift": list(shift)}
+                t.evaluations += 1
+                t.nontrivial_count += 1
+                try:
+                    p = Path2D(entities=[Line(e) for e in ents], vertices=V * sc + np.array(shift) * sc)
+                    got = read_regions(p)
+                except Exception as e:
+                    t.violation(f"constructing a drawing of size {sc:g} raises {type(e).__name__}", case, {"exc": repr(e)[:300]})
+                    continue
+                want = {"n_closed": want0["n_closed"], "body_count": want0["body_count"], "shells": sorted((a * sc * sc, h, b * sc * sc) for a, h, b in want0["shells"]), "area": want0["area"] * sc * sc, "length": want0["length"] * sc}
+                bad = _regions_equal_rel(got, want, 1e-9)
+                if bad:
+                    t.violation(f"a drawing constructed at size {sc:g} has another {bad} than the same drawing at unit size", case, {"got": got, "want": want})
+    return t
+
+
+def _regions_equal_rel(got, want, tol):
+    """regions_equal with purely relative tolerances (the drawings here are tiny or huge)."""
+    if got["n_closed"] != want["n_closed"] or got["body_count"] != want["body_count"] or len(got["shells"]) != len(want["shells"]):
+        return "number of closed paths / shells"
+    for a, b in zip(got["shells"], want["shells"]):
+        if a[1] != b[1] or abs(a[0] - b[0]) > tol * b[0] or abs(a[2] - b[2]) > tol * b[2]:
+            return "shell / hole structure or area"
+    if abs(got["area"] - want["area"]) > tol * want["area"]:
+        return "area"
+    if abs(got["length"] - want["length"]) > tol * want["length"]:
+        return "length"
+    return None
+
+
 def _w_export(task):
     name, max_entities = task
     import trimesh
@@ -417,6 +521,11 @@ def replay(case):
     elif fam == "transform":
         t.merge(_w_transform((case["drawing"], 5)))
         t.merge(_w_transform((case["drawing"], 4)))
+    elif fam == "edit_then_transform":
+        t.merge(_w_edit_then_transform((case["drawing"], 5)))
+        t.merge(_w_edit_then_transform((case["drawing"], 4)))
+    elif fam == "construction_scale":
+        t.merge(_w_construction_scale(None))
     else:
         t.merge(_w_export((case["drawing"], 5)))
         t.merge(_w_export((case["drawing"], 4)))
@@ -434,9 +543,11 @@ def main(run):
         for sl in range(nsl):
             tasks.append((_w_variants, (name, me, sl, nsl)))
         tasks.append((_w_transform, (name, maxe)))
+        tasks.append((_w_edit_then_transform, (name, maxe)))
         tasks.append((_w_export, (name, maxe)))
     tasks.append((_w_arcs, None))
     tasks.append((_w_arc_transform, None))
+    tasks.append((_w_construction_scale, None))
     run.log(f"{len(tasks)} tasks, <= {maxe} entities")
     res = harness.pmap(_run, tasks)
     run.merge(res)
